@@ -10,7 +10,7 @@ def run(ctx):
     cov.update(cov2)
     cov["trusted_base"] = simplex.trusted(cov)
     return C.finish(ctx, "proof", cov, [
-        "PARTIAL: the backward direction is proved end to end over to_standard_form (C13_backward: a non-negative solution of the standard form, read back by name, satisfies every row, "
-        "every domain and has the reported objective value); the forward direction (every feasible point has a standard-form preimage) is proved row by row only "
-        "(rhs sign normalisation, slack/surplus, free-variable split, objective flip) and is evaluated on the implementation at grid points on every run; "
-        "the whole conversion is tied structurally (exact equality of the whole standard form on every generated model)"])
+        "both directions are proved end to end over to_standard_form (C13_backward: a non-negative solution of the standard form, read back by name, satisfies every row, "
+        "every domain and has the reported objective value; C13_forward: every point satisfying rows and domains is the read-back of a non-negative standard-form solution) "
+        "under the boolean premise lin_okb and, for the forward direction, pairwise distinct column names - both premises are evaluated on every tied implementation output and counted in the coverage; "
+        "f64 rounding in the implementation's conversion is not modelled (outputs are compared with tolerance 1e-9)"])
